@@ -44,7 +44,7 @@ func (p c05Plan) String() string {
 }
 
 // values an unknown wire field may carry: each decodable on its own with c05TM
-const c05ExtraKinds = 34
+const c05ExtraKinds = 38
 
 // c05AliasKind: the unknown field holds the very object a later known field points to (that field then
 // arrives as a reference into the value that was skipped)
@@ -96,6 +96,24 @@ func c05Extra(kind int) *av.V {
 		return &av.V{K: av.Map, Typed: true, Type: "PlainMap", Elems: []*av.V{av.StringV("k"), av.IntV(5)}}
 	case c05AliasKind:
 		return av.IntV(-77) // (when no later field holds an object)
+	case 34:
+		// what the Go side has never heard of: the peer's class got a field of a new class (§5 #45) ...
+		return &av.V{K: av.Object, Type: "com.peer.Audit", Fields: []string{"who", "when", "n"}, Elems: []*av.V{av.StringV("someone"), av.DateV(1500000000123), av.LongV(1 << 40)}}
+	case 35:
+		// ... whose instances nest, refer to themselves and hold a registered class
+		inner := &av.V{K: av.Object, Type: "com.peer.Tag", Fields: []string{"label"}, Elems: []*av.V{av.StringV("t")}}
+		outer := &av.V{K: av.Object, Type: "com.peer.Audit2", Fields: []string{"tag", "self", "known", "tagAgain"}}
+		outer.Elems = []*av.V{inner, outer, {K: av.Object, Type: "Inner", Fields: []string{"a", "s"}, Elems: []*av.V{av.IntV(3), av.StringV("in")}}, inner}
+		return outer
+	case 36:
+		// ... or of a list type nobody registered, holding instances of the new class
+		el := func(l string) *av.V {
+			return &av.V{K: av.Object, Type: "com.peer.Tag", Fields: []string{"label"}, Elems: []*av.V{av.StringV(l)}}
+		}
+		return &av.V{K: av.List, Typed: true, Type: "[com.peer.Tag", Elems: []*av.V{el("a"), el("b"), av.NullV()}}
+	case 37:
+		// ... or of a map type nobody registered
+		return &av.V{K: av.Map, Typed: true, Type: "com.peer.Registry", Elems: []*av.V{av.StringV("k"), av.IntV(5), av.IntV(7), {K: av.List, Typed: true, Type: "[com.peer.Unknown", Elems: []*av.V{av.IntV(1)}}}}
 	}
 	switch kind % 12 {
 	case 0:
